@@ -113,7 +113,8 @@ def run(db: DB, rep: Report) -> None:
         rep.check(rule, o["ok"], db.loc(node), fi.short if fi else "?",
                   "%s@%s" % (o["what"], norm(node)[:120]),
                   "%s in %s" % (o["what"], norm(node)[:80]),
-                  "%s of %s: %s" % (o["what"], norm(node)[:100], o["detail"]))
+                  "%s of %s: %s" % (o["what"], norm(node)[:100], o["detail"]),
+                  decided=o.get("decided", True))
 
     # for-loop bodies: the recursive translation is non-empty because the update node
     # adds make_update(), which always returns a statement
